@@ -43,7 +43,7 @@ def swarm(r, table, p_drop=0.25):
 
 def base_cfg(r, tier):
     cfg = {
-        "profile": r.choice(["ints", "ints", "strs", "mixed"] + (["wide"] if tier == "thorough" else [])),
+        "profile": r.choice(["ints", "ints", "strs", "mixed", "ints", "strs", "mixed", "wide", "npints"]),
         "faults": False,
         "fault_rate": 0.0,
         "fault_kinds": [],
